@@ -2,6 +2,11 @@
 # The runner died abnormally. Each worker journals the case it is about to execute; re-run
 # every journaled case alone in a fresh process: one that dies again is the replay file.
 bin="$1"; PROP="$2"
+# Only the properties that state memory safety / ownership own a crash. For the others the
+# property itself was not observed to fail: the check could not decide.
+case "$PROP" in C02|C03|C04|C17|C18) ;; *)
+  echo "INCONCLUSIVE: the runner was killed (memory corruption or abort inside the library) before property $PROP could be decided"; exit 2 ;;
+esac
 J="$VERIF_DIR/work/journal-$PROP"
 found=0
 for f in "$J"/*.case; do
